@@ -11,7 +11,7 @@ import (
 
 func runC05(c *Checker) {
 	c.Level = "other"
-	c.explain = "Four structural rules over every function reachable from the decoding entry points (exported functions of packet, packet/adaptationfield, psi, pes, ebp, scte35 taking bytes/packets/readers, every non-setter method of the objects they return, closures): (index) every indexing, slicing, array conversion, byte-order helper contract, make length, unchecked type assertion, division, explicit panic and method call on an interface whose error was discarded must be safe for all inputs — proved by affine forms over len()/loads with interval ranges (wrap-around of narrow integers modelled), dominating branch facts, dominating bounds checks, value numbering of loads and write-free calls, a bytes.Buffer remaining-length typestate and lifting of internal functions' requirements to their call sites; (loop) every loop must match a termination pattern (counter with non-wrapping type, range, shrinking slice, reader-driven); (alloc) make() lengths are bounded by a constant or an affine function of input lengths; (readonly) read-only entry points write through none of their byte-slice / packet parameters (mod summaries to a fixed point). Sites that genuinely panic on the current tree are listed in known_findings.json with a witness input; safe sites the engine cannot prove are listed one by one in assumed_safe.json with the hand argument. Does not decide: time/memory constants, panics inside the standard library not covered by the contract table, nil dereferences other than the discarded-error case."
+	c.explain = "Five structural rules over every function reachable from the decoding entry points (exported functions of packet, packet/adaptationfield, psi, pes, ebp, scte35 taking bytes/packets/readers, every non-setter method of the objects they return, closures): (index) every indexing, slicing, array conversion, byte-order helper contract, make length, unchecked type assertion, division, explicit panic and method call on an interface whose error was discarded must be safe for all inputs — proved by affine forms over len()/loads with interval ranges (wrap-around of narrow integers modelled), dominating branch facts, dominating bounds checks, value numbering of loads and write-free calls, a bytes.Buffer remaining-length typestate and lifting of internal functions' requirements to their call sites; (loop) every loop must match a termination pattern (counter with non-wrapping type, range, shrinking slice, reader-driven); (alloc) make() lengths are bounded by a constant or an affine function of input lengths; (readonly) read-only entry points write through none of their byte-slice / packet parameters (mod summaries to a fixed point). Sites that genuinely panic on the current tree are listed in known_findings.json with a witness input; safe sites the engine cannot prove are listed one by one in assumed_safe.json with the hand argument. (nilfield) interface-typed struct fields on which methods are called without a nil test must have been assigned on every path on which a creating function hands the struct out. Does not decide: time/memory constants, panics inside the standard library not covered by the contract table, other kinds of nil dereference."
 	c.trust("go/ssa + go/types (x/tools v0.29.0)", "E2 bounds engine (bounds*.go): int treated as unbounded (64-bit), no unsafe/reflection in gots, interface calls resolved by method name",
 		"standard-library contracts: binary.BigEndian.UintN/PutUintN need N/8 bytes, Buffer.Next(n) needs n>=0 and returns min(n, Len()) bytes, Peek(n) returns n bytes or an error, Buffer.Len() is the unread count",
 		"hand arguments of assumed_safe.json")
@@ -51,6 +51,7 @@ func runC05(c *Checker) {
 	c.extra["functions_in_scope"] = len(reach)
 	sort.Strings(B.outOfScope)
 	c.extra["functions_out_of_scope"] = B.outOfScope
+	c.checkNilFields(reach)
 
 	// loops
 	loops := B.checkLoops()
